@@ -221,15 +221,16 @@ impl<'a, E: FieldElement> ConstraintEvaluationTable<'a, E> {
             actual_degrees
         );
 
-        // make sure evaluation domain size does not exceed the size required by the max expected
-        // degree
+        // make sure the evaluation domain is large enough for the max expected degree; the domain
+        // is sized by `TransitionConstraintDegree::min_blowup_factor()`, a power of two estimated
+        // from the declared degree alone, which for short traces can be twice the size strictly
+        // required (e.g. degree 10 over 8 steps: 63 < 64, but the blowup factor is 16)
         let max_degree = self.expected_transition_degrees.iter().copied().max().unwrap_or(max_degree);
         let expected_domain_size =
             core::cmp::max(max_degree, self.domain.trace_length() + 1).next_power_of_two();
-        assert_eq!(
-            expected_domain_size,
-            self.num_rows(),
-            "incorrect constraint evaluation domain size; expected {}, but was {}",
+        assert!(
+            expected_domain_size <= self.num_rows(),
+            "incorrect constraint evaluation domain size; expected at least {}, but was {}",
             expected_domain_size,
             self.num_rows()
         );
